@@ -256,6 +256,7 @@ spiftool_substr(spif_charptr_t str, spif_int32_t idx, spif_int32_t cnt)
     REQUIRE_RVAL(start_pos < len, (spif_charptr_t) NULL);
 
     if (cnt <= 0) {
+        REQUIRE_RVAL(((spif_uint32_t) 0 - (spif_uint32_t) cnt) <= len - start_pos, (spif_charptr_t) NULL);
         char_count = len - start_pos + cnt;
     } else {
         char_count = cnt;
